@@ -93,7 +93,7 @@ def scan_forbidden(modules):
             if FORBIDDEN.search(s): hits.append('%s:%d: %s' % (mod, i, line.strip()))
     return hits
 
-def lean_check(prop):
+def lean_check(prop, tier='quick'):
     """build the property module and the driver, audit axioms. Returns dict(ok, failed, obligations, …)."""
     res = {'ok': True, 'errors': [], 'theorems': [], 'axioms': {}, 'obligations': 0, 'discharged': 0}
     with Lock('lake'):
@@ -138,6 +138,18 @@ def lean_check(prop):
         out = r.stdout + r.stderr
         if r.returncode != 0:
             res['ok'] = False; res['errors'].append('axiom audit failed: ' + out[:500]); return res
+        if tier == 'thorough':
+            # independent replay of every proof/property module of the closure by leanchecker
+            from concurrent.futures import ThreadPoolExecutor
+            def replay(m):
+                rr = subprocess.run(['lake', 'env', 'leanchecker', m], cwd=LEAN, capture_output=True, text=True, env=ENV)
+                return m, rr.returncode, (rr.stdout + rr.stderr)[-300:]
+            with ThreadPoolExecutor(max_workers=8) as ex:
+                results = list(ex.map(replay, sorted(proof_mods)))
+            res['leanchecker'] = {'modules': len(results), 'failed': [m for m, rc, _ in results if rc != 0]}
+            for m, rc, o in results:
+                if rc != 0:
+                    res['ok'] = False; res['errors'].append('leanchecker rejected %s: %s' % (m, o))
         for m in re.finditer(r"'([^']+)' (does not depend on any axioms|depends on axioms: \[([^\]]*)\])", out, re.S):
             axs = [a.strip() for a in (m.group(3) or '').replace('\n', ' ').split(',') if a.strip()]
             res['axioms'][m.group(1)] = axs
@@ -286,6 +298,22 @@ def compare(cfg, cases, impl, model):
                 findings.append(Finding('tie', cfg, ci, li, req, I, M, S))
     return findings, stats
 
+MAXU = 2**64 - 1
+_NUM = re.compile(r'(?<![0-9a-fA-Fx:,.])(\d{20,})(?![0-9a-fA-F])')
+def sanitize(case):
+    """arguments are `usize`: a generator that produced a larger decimal is clamped (never hex words of bit literals)"""
+    out = []
+    for l in case:
+        if l.startswith('case '): out.append(l); continue
+        toks = l.split(' ')
+        for i, t in enumerate(toks):
+            if ':' in t and not t.startswith('s1:') and not t.startswith('s0:'): continue      # bit literal len:hexwords
+            def clamp(m):
+                v = int(m.group(0)); return str(min(v, MAXU))
+            toks[i] = re.sub(r'\d{20,}', clamp, t)
+        out.append(' '.join(toks))
+    return out
+
 def shrink(case, fails):
     """delta-debug the request lines of a failing case (first line `case …` is kept)"""
     head, body = case[:1], case[1:]
@@ -361,7 +389,7 @@ def main():
         lean = {'ok': True, 'errors': [], 'theorems': [], 'axioms': {}, 'obligations': 1, 'discharged': 1, 'skipped': True}
         subprocess.run(['lake', 'build', 'sucds_model'], cwd=LEAN, capture_output=True, env=ENV)
     else:
-        lean = lean_check(prop)
+        lean = lean_check(prop, tier)
     log('lean:', 'ok' if lean['ok'] else 'FAILED', lean.get('errors', [])[:3], 'obligations', lean['obligations'])
     if not os.path.exists(DRIVER):
         print('model driver missing and could not be built: ' + '; '.join(lean['errors'][:5])); return 2
@@ -382,7 +410,10 @@ def main():
             if ls: cases.append(ls)
     ncorpus = len(cases)
     cases += gens.GENERATORS[prop](rng, tier)
+    if tier == 'thorough' and prop not in ('C13', 'C14'):
+        for _ in range(3): cases += gens.GENERATORS[prop](rng, tier)      # the generator state continues: new cases
     if prop == 'C07' and tier == 'thorough': cases += gens.gen_C07_exhaustive()
+    cases = [sanitize(c) for c in cases]
     log('cases:', len(cases), 'lines:', sum(len(c) for c in cases))
 
     all_findings = []; stats_by_cfg = {}; impl_by_cfg = {}; model_by_cfg = {}
@@ -494,6 +525,7 @@ def main():
             'programs': evaluations, 'disagreements_checked': len(all_findings),
             'traces_validated_against_impl': sum(st['lines'] for st in stats_by_cfg.values()),
             'configurations': cfgs, 'stats_by_configuration': stats_by_cfg, 'corpus_cases': ncorpus,
+            'leanchecker': lean.get('leanchecker'),
             'explanation': 'theorems over the Lean model re-checked by lake build against constants regenerated from /repo; model tied to /repo by running %d generated cases through the real code (%s) and the model driver, comparing implementation vs model (tie), implementation vs specification (oracle) and model vs specification' % (evaluations, ', '.join(cfgs)),
             'exhaustive': False,
         },
@@ -506,12 +538,15 @@ def main():
 
     if machinery:
         p = write_replay('machinery', {'property': prop, 'kind': 'machinery-error', 'findings': [f.as_dict() for f in machinery[:10]], 'cases': [cases[f.case_index][:80] for f in machinery[:2]]})
-        print('MACHINERY-ERROR property=%s the model or driver disagrees with the specification (not a statement about the code): %s' % (prop, p))
+        if lean['ok']:
+            print('MACHINERY-ERROR property=%s the model or driver disagrees with the specification although every theorem checks (a defect of the machinery, not a statement about the code): %s' % (prop, p))
+        else:
+            print('NOTE property=%s the model, stated over constants/tables regenerated from the current sources, no longer satisfies its specification (the proof obligations fail as well): %s' % (prop, p))
     for p, suffix in violations:
         print('VIOLATION property=%s replay=%s%s' % (prop, p, suffix))
     shutil.rmtree(work, ignore_errors=True)
     if violations: return 1
-    if machinery: return 3
+    if machinery and lean['ok']: return 3
     print('OK property=%s tier=%s cases=%d lines=%d configs=%s theorems=%d wall=%.0fs' % (prop, tier, len(cases), sum(len(c) for c in cases), ','.join(cfgs), len(lean['theorems']), time.time() - t0))
     return 0
 
